@@ -136,7 +136,7 @@ def flatten_leaves_and_product(self, stable_particles, result, OLD):
         record("C12", "flatten:subdecays-left", f"flattened chain still has decays {list(result.decays)}", detail)
     if got != leaves:
         record("C12", "flatten:leaves", f"final state {dict(got)} != leaves {dict(leaves)}", detail)
-    if not math.isclose(top.bf, bf, rel_tol=1e-9, abs_tol=0.0):
+    if not math.isclose(top.bf, bf, rel_tol=1e-9, abs_tol=1e-290):  # products underflowing into the denormal range lose relative precision
         record("C12", "flatten:bf-product", f"bf {top.bf!r} != product {bf!r}", detail)
     if not _meta_equal(top.metadata, OLD.before["decays"][m][2]):
         record("C12", "flatten:metadata", f"top-level metadata {top.metadata!r} != {OLD.before['decays'][m][2]!r}", detail)
@@ -294,6 +294,40 @@ def mode_conj_keeps_bf_and_metadata(self, pdg_name, result, OLD):
         record("C04", "conj-mode:size", f"{sum(ds.values())} particles became {len(result)}", detail)
     if (self.bf, dict(self.daughters), self.metadata) != OLD.before:
         record("C04", "conj-mode:original-mutated", "charge_conjugate() changed the mode it was called on", detail)
+
+
+# --------------------------------------------------------------------------------------------------
+# C01 / C03 / C05 / C07  DecFileParser.parse: the independent reference reader on the parser's own text
+
+_USER_MODELS: dict = {}
+
+
+@_monitor("C01.parse.tables_match_reference")
+def parse_matches_reference(self, include_ccdecays):
+    from . import declang as L  # noqa: PLC0415
+    from . import snapshot  # noqa: PLC0415
+
+    text = getattr(self, "_dec_file", None)
+    if not isinstance(text, str):
+        COUNTS["C01.parse.not_observed"] += 1
+        return
+    um = tuple(_USER_MODELS.get(id(self), ()))
+    try:
+        stmts = L.read(text if text.endswith("\n") else text + "\n", L.published_models(), um)
+    except L.Unsupported:
+        COUNTS["C01.parse.reference_reader_unsupported"] += 1
+        return
+    exp = L.expected(stmts, include_cc=bool(include_ccdecays))
+    names = [s["name"] for s in stmts if s["k"] == "CDecay"]
+    if len(names) != len(set(names)) or len({s["a"] for s in stmts if s["k"] == "CopyDecay"} & set(exp["tables"])):
+        COUNTS["C01.parse.out_of_scope"] += 1      # several CDecay of one name / CopyDecay onto an existing table
+        return
+    detail = {"files": getattr(self, "_dec_file_names", None), "include_ccdecays": bool(include_ccdecays)}
+    for mech, msg in snapshot.compare_tables(self, exp):
+        prop = "C03" if ":derived" in mech and any(s["k"] == "CDecay" for s in stmts) else "C01"
+        record(prop, "parse-contract:" + mech, msg, detail)
+    for mech, msg in snapshot.compare_globals(self, exp):
+        record("C07", "parse-contract:" + mech, msg, detail)
 
 
 # --------------------------------------------------------------------------------------------------
@@ -552,6 +586,19 @@ def arm(*groups):
             Y.DaughtersDict.charge_conjugate = icontract.ensure(daughters_conjugated, error=ContractBroken)(Y.DaughtersDict.charge_conjugate)
             g2 = icontract.ensure(mode_conj_keeps_bf_and_metadata, error=ContractBroken)(Y.DecayMode.charge_conjugate)
             Y.DecayMode.charge_conjugate = icontract.snapshot(_snap_mode, name="before")(g2)
+        elif g == "parse":
+            import decaylanguage.dec.dec as D  # noqa: PLC0415
+            import functools  # noqa: PLC0415
+
+            real_load = D.DecFileParser.load_additional_decay_models
+
+            @functools.wraps(real_load)
+            def load_additional_decay_models(self, *models):
+                _USER_MODELS.setdefault(id(self), []).extend(models)
+                return real_load(self, *models)
+
+            D.DecFileParser.load_additional_decay_models = load_additional_decay_models
+            D.DecFileParser.parse = icontract.ensure(parse_matches_reference, error=ContractBroken)(D.DecFileParser.parse)
         elif g == "parser_chains":
             import decaylanguage.dec.dec as D  # noqa: PLC0415
 
